@@ -68,16 +68,18 @@ class Buffer(NamedUIDObject):
         self._unloading_tasks[task] = quantity
         # the buffer is unloaded at the task start time
         # append a new level level and a new level change time
-        self._level_changes_time.append(z3.Int(f"{self.name}_sc_time_{task.name}"))
-        self._buffer_levels.append(z3.Int(f"{self.name}_level_{task.name}"))
+        self._level_changes_time.append(
+            z3.Int(f"{self.name}_sc_time_unload_{task.name}")
+        )
+        self._buffer_levels.append(z3.Int(f"{self.name}_level_unload_{task.name}"))
 
     def add_loading_task(self, task, quantity) -> None:
         # store quantity
         self._loading_tasks[task] = quantity
         # the buffer is loaded at the task completion time
         # append a new level level and a new level change time
-        self._level_changes_time.append(z3.Int(f"{self.name}_sc_time_{task.name}"))
-        self._buffer_levels.append(z3.Int(f"{self.name}_level_{task.name}"))
+        self._level_changes_time.append(z3.Int(f"{self.name}_sc_time_load_{task.name}"))
+        self._buffer_levels.append(z3.Int(f"{self.name}_level_load_{task.name}"))
 
 
 class NonConcurrentBuffer(Buffer):
